@@ -77,7 +77,7 @@ func vfC06_FromReader() {
 	n := vfInt("len")
 	vfAssume(n >= 0 && n <= vfMaxBuf)
 	data := vfBytes("buf", n)
-	r := &vfReader{data: data}
+	r := &vfReader{data: data, frags: 3}
 	mode := vfCase("mode")
 	if mode == 0 {
 		b, err := AppendFromReader(nil, r)
